@@ -5,7 +5,7 @@ The model is a registry of *monitor objects* (``Mon``) and, per trainer, a table
 alone:
 
   * which object does a request resolve to (pooling: within one trainer a request with the
-    same monitor name, the same layer-relative attribute and equal tags resolves to the
+    same monitor name, the same attribute OF THE SAME LAYER and equal tags resolves to the
     object already held by some cell of that trainer; ``unique`` never aliases; a name that
     already exists on the cell is returned as is, or replaced when ``unique``),
   * whether an object is attached to the layer (a new object is attached iff its trainer
@@ -40,9 +40,9 @@ import numpy as np
 
 class Mon:
     __slots__ = ("uid", "name", "source", "kind", "p", "cap", "fill", "attached", "states",
-                 "key", "owner", "count", "sib", "nobs_total")
+                 "key", "owner", "count", "sib", "nobs_total", "layer")
 
-    def __init__(self, uid, name, source, kind, p, cap, key, owner, sib=None):
+    def __init__(self, uid, name, source, kind, p, cap, key, owner, sib=None, layer=None):
         self.uid = uid
         self.name = name
         self.source = source  # ("n", neuron) | ("c", connection) | ("cell", cellkey)
@@ -57,6 +57,7 @@ class Mon:
         self.count = 0
         self.sib = sib  # for elig: (cell entry, obs name, cond name, orientation)
         self.nobs_total = 0
+        self.layer = layer  # monitors are attached to (and fire with) one layer
 
     def clear(self):
         self.states = []
@@ -142,7 +143,7 @@ class Trainer:
 
 class World:
     def __init__(self):
-        self.layer_training = True
+        self.layer_training = {}  # layer name -> bool
         self.trainers = {}  # idx -> Trainer
         self.namemap = {}  # cellkey -> {monitor name -> Mon}   (labelling only)
         self._uid = 0
@@ -173,7 +174,7 @@ class World:
             m.clear()
 
     # ------------------------------------------------------------------ pool
-    def add_monitor(self, idx, cname, mname, source, kind, p, cap, unique, tags, sib=None):
+    def add_monitor(self, idx, cname, mname, source, kind, p, cap, unique, tags, sib=None, layer=None):
         """Returns (mon, how) with how in {"existing", "alias", "new", "replaced"}."""
         tr = self.trainers[idx]
         e = tr.cells[cname]
@@ -199,7 +200,7 @@ class World:
             self.namemap.setdefault(e.cellkey, {})[mname] = found
             return found, "alias"
         self._uid += 1
-        m = Mon(self._uid, mname, source, kind, p, cap, key, idx, sib)
+        m = Mon(self._uid, mname, source, kind, p, cap, key, idx, sib, layer)
         m.attached = tr.training
         e.mons[mname] = m
         self.namemap.setdefault(e.cellkey, {})[mname] = m
@@ -238,13 +239,13 @@ class World:
             out.extend(tr.objects())
         return out
 
-    def step(self, data):
-        """data: source -> array.  One layer step."""
+    def step(self, data, layer):
+        """data: source -> array.  One step of ``layer``."""
         self.nsteps += 1
-        if not self.layer_training:
+        if not self.layer_training[layer]:
             return 0
         n = 0
-        objs = [m for m in self.all_objects() if m.attached]
+        objs = [m for m in self.all_objects() if m.attached and m.layer == layer]
         for m in objs:
             if m.kind != "elig":
                 m.fold(data[m.source])
